@@ -65,27 +65,65 @@ Proof. rewrite ml_resolve_spec. unfold ml_result. simpl. destruct (first_bad a g
 Definition ml_binding (m : option (list gname)) : binding :=
   match m with Some a => ML a | None => Orig end.
 
-(* pickle.loads, _pickle.load, _pickle.loads always equal the last activation / removal *)
-Definition others_rel (s : hstate) (g : ghost) : Prop :=
-  pls s = ml_binding (g_ml g) /\ cl s = ml_binding (g_ml g) /\ cls s = ml_binding (g_ml g).
+(* bindings (current, or saved by an open context) against the mechanisms switched on (now, or at
+   that context's entry): the four entry points other than pickle.load are exactly the ML
+   environment's state; pickle.load is the checked loader or follows the ML environment; and the
+   global check keeps pickle.load away from the original *)
+Definition cur_rel (v : saved) (p : gpair) : Prop :=
+  s_pls v = ml_binding (snd p) /\ s_cl v = ml_binding (snd p) /\
+  s_cls v = ml_binding (snd p) /\ s_pu v = ml_binding (snd p) /\
+  (s_pl v = Checked \/ s_pl v = ml_binding (snd p)) /\
+  (fst p = true -> s_pl v <> Orig).
 
-Lemma others_step s g o : others_rel s g -> others_rel (hstep s o) (gstep g o).
+Definition rel (s : hstate) (g : ghost) : Prop :=
+  cur_rel (snapshot s) (gsnap g) /\ Forall2 cur_rel (ctxs s) (g_stack g).
+
+Lemma rel_step s g o : rel s g -> rel (hstep s o) (gstep g o).
 Proof.
-  unfold others_rel. intros (A & B & C).
-  destruct o; simpl; auto; destruct (ctxs s); simpl; auto.
+  intros (Hc & Hs). pose proof Hc as Hc0. destruct Hc as (A & B & C & D & E & F).
+  unfold snapshot, gsnap in A, B, C, D, E, F. cbn [s_pl s_pls s_cl s_cls s_pu fst snd] in A, B, C, D, E, F.
+  destruct o; cbn [hstep gstep].
+  - (* arm *) split; [|exact Hs]. unfold cur_rel, snapshot, gsnap; cbn.
+    repeat split; auto. discriminate.
+  - (* activate *) split; [|exact Hs]. unfold cur_rel, snapshot, gsnap; cbn.
+    repeat split; auto. discriminate.
+  - (* remove *) split; [|exact Hs]. unfold cur_rel, snapshot, gsnap; cbn.
+    repeat split; auto. discriminate.
+  - (* enter *) split; [|constructor; [exact Hc0|exact Hs]]. unfold cur_rel, snapshot, gsnap; cbn.
+    repeat split; auto. discriminate.
+  - (* leave *) inversion Hs as [He1 He2|v p r r' Hv Hr He1 He2].
+    + split; [exact Hc0|]. rewrite <- He1, <- He2. constructor.
+    + split; [|exact Hr]. destruct v, p. exact Hv.
+  - (* leave by exception *) inversion Hs as [He1 He2|v p r r' Hv Hr He1 He2].
+    + split; [exact Hc0|]. rewrite <- He1, <- He2. constructor.
+    + split; [|exact Hr]. destruct v, p. exact Hv.
+  - (* probe *) split; assumption.
+  - (* make *) split; assumption.
 Qed.
 
-Lemma others_run h : forall s g, others_rel s g -> others_rel (hrun s h) (grun g h).
+Lemma rel_run h : forall s g, rel s g -> rel (hrun s h) (grun g h).
 Proof.
   induction h as [|o r IH]; intros s g H; simpl; [exact H|].
-  apply IH. apply others_step. exact H.
+  apply IH. apply rel_step. exact H.
 Qed.
 
-Lemma others_init : others_rel h_init g_init.
-Proof. repeat split. Qed.
+Lemma rel_init : rel h_init g_init.
+Proof.
+  split; [|constructor]. unfold cur_rel; cbn. repeat split; auto. discriminate.
+Qed.
 
-Lemma others_reachable h : others_rel (hrun h_init h) (grun g_init h).
-Proof. apply others_run. exact others_init. Qed.
+Lemma rel_reachable h : rel (hrun h_init h) (grun g_init h).
+Proof. apply rel_run. exact rel_init. Qed.
+
+(* pickle.loads, _pickle.load, _pickle.loads, pickle.Unpickler always are the ML environment in force *)
+Lemma others_reachable h :
+  let s := hrun h_init h in
+  let g := grun g_init h in
+  pls s = ml_binding (g_ml g) /\ cl s = ml_binding (g_ml g) /\ cls s = ml_binding (g_ml g) /\
+  pu s = ml_binding (g_ml g).
+Proof.
+  intros s g. destruct (rel_reachable h) as ((A & B & C & D & _) & _). repeat split; assumption.
+Qed.
 
 Lemma ml_binding_not_checked m : ml_binding m <> Checked.
 Proof. destruct m; discriminate. Qed.
@@ -164,9 +202,14 @@ Proof. induction h1 as [|o r IH]; intros g; simpl; [reflexivity|apply IH]. Qed.
 Definition is_leave (o : hop) : bool :=
   match o with HLeave | HLeaveExc => true | _ => false end.
 
+Lemma leave_pops s lv v r :
+  is_leave lv = true -> ctxs s = v :: r ->
+  hstep s lv = mkH (s_pl v) (s_pls v) (s_cl v) (s_cls v) (s_pu v) r.
+Proof. intros Hl H. destruct lv; try discriminate; simpl; rewrite H; reflexivity. Qed.
+
 Lemma leave_step_ctxs s lv t top0 base :
   is_leave lv = true -> ctxs s = (t :: top0) ++ base -> ctxs (hstep s lv) = top0 ++ base.
-Proof. intros Hl H. destruct lv; try discriminate; simpl; rewrite H; reflexivity. Qed.
+Proof. intros Hl H. rewrite (leave_pops s lv t (top0 ++ base) Hl H). reflexivity. Qed.
 
 Lemma ctxs_discipline h : forall d d' s top base,
   depth_ok d h = Some d' -> ctxs s = top ++ base -> List.length top = d ->
@@ -178,13 +221,14 @@ Proof.
     + apply (IH d d' _ top base Hd); [exact Hc|exact Hl].
     + apply (IH d d' _ top base Hd); [exact Hc|exact Hl].
     + apply (IH d d' _ top base Hd); [exact Hc|exact Hl].
-    + apply (IH (S d) d' _ (pl s :: top) base Hd); [simpl; rewrite Hc; reflexivity|simpl; lia].
+    + apply (IH (S d) d' _ (snapshot s :: top) base Hd); [simpl; rewrite Hc; reflexivity|simpl; lia].
     + destruct d as [|d0]; [discriminate|].
       destruct top as [|t top0]; [simpl in Hl; lia|].
       apply (IH d0 d' _ top0 base Hd); [apply (leave_step_ctxs s HLeave t); auto|simpl in Hl; lia].
     + destruct d as [|d0]; [discriminate|].
       destruct top as [|t top0]; [simpl in Hl; lia|].
       apply (IH d0 d' _ top0 base Hd); [apply (leave_step_ctxs s HLeaveExc t); auto|simpl in Hl; lia].
+    + apply (IH d d' _ top base Hd); [exact Hc|exact Hl].
     + apply (IH d d' _ top base Hd); [exact Hc|exact Hl].
 Qed.
 
@@ -195,46 +239,45 @@ Proof.
   destruct top'; [exact Hc|simpl in Hl; lia].
 Qed.
 
-Definition others (s : hstate) : binding * binding * binding := (pls s, cl s, cls s).
-
-Lemma others_quiet_step s o : quiet [o] = true -> others (hstep s o) = others s.
-Proof.
-  unfold others. destruct o; simpl; intros H; try discriminate; try reflexivity;
-    destruct (ctxs s); reflexivity.
-Qed.
-
-Lemma others_quiet h : forall s, quiet h = true -> others (hrun s h) = others s.
-Proof.
-  induction h as [|o r IH]; intros s H; simpl; [reflexivity|].
-  assert (quiet [o] = true /\ quiet r = true) as [H1 H2].
-  { destruct o; simpl in *; try discriminate; auto. }
-  rewrite IH by exact H2. apply others_quiet_step. exact H1.
-Qed.
-
-(* leaving restores pickle.load and the context stack exactly; the other three bindings are not
-   touched by the entry or by the exit; if nothing was activated / removed inside, the whole
-   four-binding state is the one in force on entry *)
+(* leaving (either way) after ANY well-bracketed body -- whatever it armed, activated, removed,
+   entered and left -- gives back the complete state in force immediately before the matching
+   enter: all five bindings and the stack of enclosing contexts *)
 Lemma leave_restores s0 seg lv :
   balanced seg = true -> is_leave lv = true ->
-  let s1 := hrun s0 (HEnter :: seg) in
-  let s2 := hstep s1 lv in
-  pl s2 = pl s0 /\ ctxs s2 = ctxs s0 /\
-  others (hstep s0 HEnter) = others s0 /\ others s2 = others s1 /\
-  (quiet seg = true -> others s2 = others s0).
+  hstep (hrun s0 (HEnter :: seg)) lv = s0.
 Proof.
-  intros Hb Hl s1 s2.
-  assert (Hc : ctxs s1 = pl s0 :: ctxs s0).
-  { unfold s1. simpl. rewrite balanced_keeps_stack by exact Hb. reflexivity. }
-  assert (H2 : pl s2 = pl s0 /\ ctxs s2 = ctxs s0 /\ others s2 = others s1).
-  { unfold s2. destruct lv; try discriminate; simpl; rewrite Hc; simpl; auto. }
-  destruct H2 as (A & B & C). repeat split; auto.
-  intros Hq. rewrite C. unfold s1. simpl. rewrite others_quiet by exact Hq. reflexivity.
+  intros Hb Hl.
+  assert (Hc : ctxs (hrun s0 (HEnter :: seg)) = snapshot s0 :: ctxs s0).
+  { simpl. rewrite balanced_keeps_stack by exact Hb. reflexivity. }
+  rewrite (leave_pops _ lv _ _ Hl Hc). destruct s0; reflexivity.
+Qed.
+
+Lemma leave_restores_bindings s0 seg lv :
+  balanced seg = true -> is_leave lv = true ->
+  let s2 := hstep (hrun s0 (HEnter :: seg)) lv in
+  s2 = s0 /\ (forall e, binding_of s2 e = binding_of s0 e) /\ ctxs s2 = ctxs s0.
+Proof.
+  intros Hb Hl s2. assert (E : s2 = s0) by (apply leave_restores; assumption).
+  rewrite E. repeat split; reflexivity.
+Qed.
+
+(* the same inside a history: a completed context leaves no trace at all *)
+Lemma leave_restores_history pre seg lv rest :
+  balanced seg = true -> is_leave lv = true ->
+  hrun h_init (pre ++ HEnter :: seg ++ lv :: rest) = hrun h_init (pre ++ rest).
+Proof.
+  intros Hb Hl. rewrite (hrun_app pre), (hrun_app pre).
+  change (HEnter :: seg ++ lv :: rest) with ((HEnter :: seg) ++ lv :: rest).
+  rewrite hrun_app.
+  change (hrun (hrun (hrun h_init pre) (HEnter :: seg)) (lv :: rest))
+    with (hrun (hstep (hrun (hrun h_init pre) (HEnter :: seg)) lv) rest).
+  rewrite (leave_restores (hrun h_init pre) seg lv Hb Hl). reflexivity.
 Qed.
 
 (* ---------- removal ---------- *)
 
 Definition all_orig (s : hstate) : Prop :=
-  pl s = Orig /\ pls s = Orig /\ cl s = Orig /\ cls s = Orig.
+  pl s = Orig /\ pls s = Orig /\ cl s = Orig /\ cls s = Orig /\ pu s = Orig.
 
 (* operations that switch nothing on *)
 Definition inert (o : hop) : bool :=
@@ -275,130 +318,83 @@ Proof. reflexivity. Qed.
 
 Definition mech_on (g : ghost) : Prop := g_armed g = true \/ g_ml g <> None.
 
-(* pickle.load followed by what the open contexts saved *)
-Definition chain (s : hstate) : list binding := pl s :: ctxs s.
-
-Definition disc_inv (s : hstate) (g : ghost) : Prop :=
-  exists b, chain s = repeat Checked (g_depth g) ++ [b] /\ (mech_on g -> b <> Orig).
-
-Lemma disc_inv_run h : forall s g,
-  disc_inv s g -> disciplined (g_depth g) h = true -> disc_inv (hrun s h) (grun g h).
+(* ALL histories: a mechanism in force means pickle.load is a protection (the checked loader, or
+   the ML environment in force); the model's context stack is as deep as the ghost's *)
+Lemma switched_on_protected h :
+  let s := hrun h_init h in
+  let g := grun g_init h in
+  (pl s = Checked \/ pl s = ml_binding (g_ml g)) /\
+  (mech_on g -> pl s <> Orig) /\
+  List.length (ctxs s) = g_depth g.
 Proof.
-  induction h as [|o r IH]; intros s g Hi Hd; simpl; [exact Hi|].
-  destruct Hi as (b & Hc & Hp). unfold chain in Hc.
-  destruct o; simpl in Hd.
-  - (* arm *)
-    apply andb_true_iff in Hd. destruct Hd as [H0 Hd]. apply Nat.eqb_eq in H0.
-    apply IH; [|simpl; rewrite H0; rewrite H0 in Hd; exact Hd].
-    rewrite H0 in Hc. simpl in Hc. inversion Hc; subst.
-    exists Checked. unfold chain. simpl. rewrite H0, <- H2. simpl. split; [reflexivity|discriminate].
-  - (* activate *)
-    apply andb_true_iff in Hd. destruct Hd as [H0 Hd]. apply Nat.eqb_eq in H0.
-    apply IH; [|simpl; rewrite H0; rewrite H0 in Hd; exact Hd].
-    rewrite H0 in Hc. simpl in Hc. inversion Hc; subst.
-    exists (ML adds). unfold chain. simpl. rewrite H0, <- H2. simpl. split; [reflexivity|discriminate].
-  - (* remove *)
-    apply andb_true_iff in Hd. destruct Hd as [H0 Hd]. apply Nat.eqb_eq in H0.
-    apply IH; [|simpl; rewrite H0; rewrite H0 in Hd; exact Hd].
-    rewrite H0 in Hc. simpl in Hc. inversion Hc; subst.
-    exists Orig. unfold chain. simpl. rewrite H0, <- H2. simpl. split; [reflexivity|].
-    unfold mech_on. simpl. intros [X|X]; [discriminate|congruence].
-  - (* enter *)
-    apply IH; [|simpl; exact Hd].
-    exists b. unfold chain. simpl. rewrite Hc. split; [reflexivity|exact Hp].
-  - (* leave *)
-    destruct (g_depth g) as [|d0] eqn:Eg; [discriminate|].
-    apply IH; [|simpl; rewrite Eg; exact Hd].
-    simpl in Hc. inversion Hc as [[Hpl Hcx]].
-    exists b. unfold chain. simpl. rewrite Eg. simpl.
-    destruct (ctxs s) as [|sv rr] eqn:Ec.
-    + destruct d0; simpl in Hcx; discriminate.
-    + simpl. split; [rewrite Hpl in Hcx; exact Hcx|exact Hp].
-  - (* leave by exception *)
-    destruct (g_depth g) as [|d0] eqn:Eg; [discriminate|].
-    apply IH; [|simpl; rewrite Eg; exact Hd].
-    simpl in Hc. inversion Hc as [[Hpl Hcx]].
-    exists b. unfold chain. simpl. rewrite Eg. simpl.
-    destruct (ctxs s) as [|sv rr] eqn:Ec.
-    + destruct d0; simpl in Hcx; discriminate.
-    + simpl. split; [rewrite Hpl in Hcx; exact Hcx|exact Hp].
-  - (* probe *)
-    apply IH; [|simpl; exact Hd]. exists b. split; assumption.
+  intros s g. destruct (rel_reachable h) as ((_ & _ & _ & _ & E & F) & Hs).
+  fold s in E, F, Hs. fold g in E, F, Hs. cbn in E, F.
+  split; [exact E|]. split.
+  - intros [Ha|Hm]; [apply F; exact Ha|].
+    destruct E as [E|E]; rewrite E; [discriminate|].
+    destruct (g_ml g); [discriminate|congruence].
+  - unfold g_depth. clear -Hs. induction Hs; simpl; congruence.
 Qed.
 
-Lemma disc_inv_init : disc_inv h_init g_init.
-Proof. exists Orig. split; [reflexivity|]. intros [X|X]; [discriminate|exfalso; apply X; reflexivity]. Qed.
+(* an open context: pickle.load followed by what the open contexts saved for it *)
+Definition chain (s : hstate) : list binding := pl s :: map s_pl (ctxs s).
 
-(* for disciplined histories: a switched-on mechanism or an open context means pickle.load is
-   not the original; and (all histories) the other three follow the ML environment exactly *)
+(* all but the last are protections *)
+Fixpoint abl (l : list binding) : Prop :=
+  match l with
+  | [] => True
+  | x :: r => match r with [] => True | _ :: _ => x <> Orig /\ abl r end
+  end.
+
+Lemma abl_tail x r : abl (x :: r) -> abl r.
+Proof. destruct r; simpl; tauto. Qed.
+
+Lemma abl_cons x r : x <> Orig -> abl r -> abl (x :: r).
+Proof. destruct r; simpl; auto. Qed.
+
+Definition ctx_inv (s : hstate) (d : nat) : Prop :=
+  List.length (ctxs s) = d /\ abl (chain s).
+
+Lemma ctx_inv_run h : forall s d,
+  ctx_inv s d -> rm_outside d h = true -> exists d', ctx_inv (hrun s h) d'.
+Proof.
+  induction h as [|o r IH]; intros s d Hi Hd; cbn [hrun]; [exists d; exact Hi|].
+  destruct Hi as (Hl & Hp). unfold chain in Hp.
+  destruct o; cbn [rm_outside] in Hd.
+  - apply (IH _ d); [|exact Hd]. split; [exact Hl|].
+    unfold chain; cbn. apply abl_cons; [discriminate|exact (abl_tail _ _ Hp)].
+  - apply (IH _ d); [|exact Hd]. split; [exact Hl|].
+    unfold chain; cbn. apply abl_cons; [discriminate|exact (abl_tail _ _ Hp)].
+  - apply andb_true_iff in Hd. destruct Hd as [H0 Hd]. apply Nat.eqb_eq in H0. rewrite H0 in Hd, Hl.
+    apply (IH _ 0); [|exact Hd]. destruct (ctxs s) eqn:Ec; [|discriminate].
+    split; [cbn; rewrite Ec; reflexivity|]. unfold chain; cbn. rewrite Ec. exact I.
+  - apply (IH _ (S d)); [|exact Hd]. split; [cbn; rewrite Hl; reflexivity|].
+    unfold chain; cbn. split; [discriminate|exact Hp].
+  - destruct d as [|d0]; [discriminate|]. apply (IH _ d0); [|exact Hd].
+    destruct (ctxs s) as [|v rr] eqn:Ec; [discriminate|]. simpl in Hl.
+    split; [cbn; rewrite Ec; cbn; lia|].
+    unfold chain; cbn. rewrite Ec. cbn. exact (abl_tail _ _ Hp).
+  - destruct d as [|d0]; [discriminate|]. apply (IH _ d0); [|exact Hd].
+    destruct (ctxs s) as [|v rr] eqn:Ec; [discriminate|]. simpl in Hl.
+    split; [cbn; rewrite Ec; cbn; lia|].
+    unfold chain; cbn. rewrite Ec. cbn. exact (abl_tail _ _ Hp).
+  - apply (IH _ d); [|exact Hd]. split; [exact Hl|exact Hp].
+  - apply (IH _ d); [|exact Hd]. split; [exact Hl|exact Hp].
+Qed.
+
+(* histories that remove hooks only while no context is open: an open context means pickle.load is
+   a protection, and so is everything the enclosing contexts but the outermost will restore *)
 Lemma armed_protected h :
-  disciplined 0 h = true ->
+  rm_outside 0 h = true ->
   let s := hrun h_init h in
   let g := grun g_init h in
   (mech_on g \/ 0 < g_depth g -> pl s <> Orig) /\
   List.length (ctxs s) = g_depth g.
 Proof.
-  intros Hd s g.
-  destruct (disc_inv_run h h_init g_init disc_inv_init Hd) as (b & Hc & Hp).
-  fold s in Hc. fold g in Hc, Hp. unfold chain in Hc. split.
-  - intros [Hm|Hz].
-    + destruct (g_depth g) as [|d0]; simpl in Hc; injection Hc as Hb Hx; rewrite Hb.
-      * apply Hp. exact Hm.
-      * discriminate.
-    + destruct (g_depth g) as [|d0]; [lia|]. simpl in Hc. injection Hc as Hb Hx. rewrite Hb.
-      discriminate.
-  - assert (L : List.length (pl s :: ctxs s) = List.length (repeat Checked (g_depth g) ++ [b]))
-      by (rewrite Hc; reflexivity).
-    simpl in L. rewrite app_length, repeat_length in L. simpl in L. lia.
-Qed.
-
-(* the same for the weaker discipline "nothing is switched ON inside a context" (removals may
-   happen anywhere): a switched-on mechanism means that pickle.load AND everything the open
-   contexts will restore are protections *)
-Definition on_inv (s : hstate) (g : ghost) (d : nat) : Prop :=
-  List.length (ctxs s) = d /\ (mech_on g -> Forall (fun b => b <> Orig) (chain s)).
-
-Lemma on_inv_run h : forall s g d,
-  on_inv s g d -> on_outside d h = true ->
-  exists d', on_inv (hrun s h) (grun g h) d'.
-Proof.
-  induction h as [|o r IH]; intros s g d Hi Hd; cbn [hrun grun]; [exists d; exact Hi|].
-  destruct Hi as (Hl & Hp). unfold chain in Hp.
-  destruct o; cbn [on_outside] in Hd.
-  - apply andb_true_iff in Hd. destruct Hd as [H0 Hd]. apply Nat.eqb_eq in H0. rewrite H0 in Hd, Hl.
-    apply (IH _ _ 0); [|exact Hd]. destruct (ctxs s) eqn:Ec; [|discriminate].
-    split; [simpl; rewrite Ec; reflexivity|]. intros _. unfold chain. simpl. rewrite Ec.
-    constructor; [discriminate|constructor].
-  - apply andb_true_iff in Hd. destruct Hd as [H0 Hd]. apply Nat.eqb_eq in H0. rewrite H0 in Hd, Hl.
-    apply (IH _ _ 0); [|exact Hd]. destruct (ctxs s) eqn:Ec; [|discriminate].
-    split; [simpl; rewrite Ec; reflexivity|]. intros _. unfold chain. simpl. rewrite Ec.
-    constructor; [discriminate|constructor].
-  - apply (IH _ _ d); [|exact Hd]. split; [simpl; exact Hl|].
-    unfold mech_on. simpl. intros [X|X]; [discriminate|congruence].
-  - apply (IH _ _ (S d)); [|exact Hd]. split; [simpl; rewrite Hl; reflexivity|].
-    intros Hm. unfold chain. simpl. constructor; [discriminate|]. apply Hp. exact Hm.
-  - destruct d as [|d0]; [discriminate|]. apply (IH _ _ d0); [|exact Hd].
-    destruct (ctxs s) as [|sv rr] eqn:Ec; [discriminate|]. simpl in Hl.
-    split; [simpl; rewrite Ec; simpl; lia|].
-    intros Hm. unfold chain. simpl. rewrite Ec. simpl. specialize (Hp Hm).
-    inversion Hp; subst. assumption.
-  - destruct d as [|d0]; [discriminate|]. apply (IH _ _ d0); [|exact Hd].
-    destruct (ctxs s) as [|sv rr] eqn:Ec; [discriminate|]. simpl in Hl.
-    split; [simpl; rewrite Ec; simpl; lia|].
-    intros Hm. unfold chain. simpl. rewrite Ec. simpl. specialize (Hp Hm).
-    inversion Hp; subst. assumption.
-  - apply (IH _ _ d); [|exact Hd]. split; [exact Hl|exact Hp].
-Qed.
-
-Lemma switched_on_protected h :
-  on_outside 0 h = true ->
-  let s := hrun h_init h in
-  let g := grun g_init h in
-  mech_on g -> pl s <> Orig /\ Forall (fun b => b <> Orig) (ctxs s).
-Proof.
-  intros Hd s g Hm.
-  assert (I0 : on_inv h_init g_init 0).
-  { split; [reflexivity|]. intros [X|X]; [discriminate|exfalso; apply X; reflexivity]. }
-  destruct (on_inv_run h h_init g_init 0 I0 Hd) as (d' & _ & Hp).
-  specialize (Hp Hm). unfold chain in Hp. inversion Hp; subst. split; assumption.
+  intros Hd s g. destruct (switched_on_protected h) as (_ & Hm & Hl). fold s in Hm, Hl. fold g in Hm, Hl.
+  split; [|exact Hl]. intros [H|H]; [apply Hm; exact H|].
+  assert (I0 : ctx_inv h_init 0) by (split; [reflexivity|exact I]).
+  destruct (ctx_inv_run h h_init 0 I0 Hd) as (d' & _ & Hp). fold s in Hp.
+  rewrite <- Hl in H. unfold chain in Hp. destruct (ctxs s) as [|v rr]; [simpl in H; lia|].
+  cbn in Hp. tauto.
 Qed.
